@@ -282,6 +282,17 @@ pub struct LifeSpec {
     pub fsmon: bool,
 }
 
+/// Like `run_lifetimes`, with the clock step per operation chosen by the caller.
+pub fn run_lifetimes_clock(dir: &Path, cfg: &SysConfig, entropy: u64, lives: &[LifeSpec], clock_step_ms: i64) -> Result<Vec<JobResult>, String> {
+    let root = dir.join("db");
+    let mut out = Vec::new();
+    for (li, life) in lives.iter().enumerate() {
+        let job = Job { root: root.to_string_lossy().into_owned(), cfg: cfg.clone(), entropy: entropy + li as u64 * 1000, clock_ms: BASE_CLOCK_MS + li as i64 * 1000, clock_step_ms, ops: life.ops.clone(), ..Default::default() };
+        out.push(run_child(&job, &dir.join(format!("job{li}.json")))?);
+    }
+    Ok(out)
+}
+
 /// Runs consecutive lifetimes (each a fresh process) on one root.
 pub fn run_lifetimes(
     dir: &Path,
